@@ -26,6 +26,18 @@ class C03(WigBedProp):
             tags.add("reader_" + o["reader"])
             tags.add("nt")
             out.append(CaseT(f"q{k}", "wig", [], lines, self.common_tags(o, names, data, tags)))
+        # the caching reader's reset: a file with more than 5000 one-value blocks, queried through the caching reader in
+        # an order that fills the block cache past its limit and then revisits early blocks
+        nblocks = 5200
+        data = {"chr1": [(3 * i, 3 * i + 2, bbgen.f32bits(float(1 + i % 7))) for i in range(nblocks)]}
+        sizes = {"chr1": 3 * nblocks + 10}
+        for variant in range(2 if tier == "thorough" else 1):
+            o = {"compress": variant, "ips": 1, "bs": 256, "zooms": "none", "pass": 1, "inmem": 1, "rt": "mt", "threads": 2, "chan": 100,
+                 "src": "iter", "sort": "all", "reader": "cached"}
+            lines = [bbgen.opt_line(o)] + bbgen.wig_lines(["chr1"], sizes, data)
+            lines += [f"Q iv chr1 0 40", f"Q iv chr1 0 {sizes['chr1']}", "Q iv chr1 0 40", "Q iv chr1 7000 7100",
+                      f"Q iv chr1 {3 * 5100} {3 * 5100 + 50}", "Q iv chr1 1 9", f"Q vals chr1 {3 * 5001} {3 * 5001 + 30}", "Q iv chr1 0 40"]
+            out.append(CaseT(f"cache{variant}", "wig", [], lines, {"cache_limit_reached", "nt", "multi_section"}))
         return out
 
     def oracle(self, case, il):
